@@ -164,3 +164,98 @@ fn ident_ord_negctl() {
     let (x, y) = (a.to_scalar().0.swap_bytes(), b.to_scalar().0.swap_bytes());
     assert!(a.cmp(&b) == num_cmp(x, y), "negctl");
 }
+
+// ---------------------------------------------------------------------------------------------
+// Wide scalars: Ord / PartialOrd for Identifier == numeric order of the little-endian scalar, ALL pairs.
+// A defect that compares 64-bit words least-significant first is correct below 2^64 and wrong above; only a
+// wide toy can see it.
+// ---------------------------------------------------------------------------------------------
+
+fn any_id_wide<const N: usize>() -> (Identifier<Wide<N>>, [u8; N]) {
+    let b: [u8; N] = kani::any();
+    match Identifier::<Wide<N>>::new(W(b)) {
+        Ok(i) => (i, b),
+        Err(_) => {
+            // zero scalar: not an identifier
+            kani::assume(false);
+            unreachable!()
+        }
+    }
+}
+
+// @harness name=ident_ord_wide16 props=C01,C02 kind=complete bound="-" tier=quick backs="T7 / RFC canonical signer order: for ALL pairs of non-zero 16-byte little-endian scalars, Identifier::cmp == u128 numeric order, partial_cmp == Some(cmp), cmp == Equal iff ==; loop bound = encoding length 16" expect=pass
+#[kani::proof]
+#[kani::unwind(18)]
+fn ident_ord_wide16() {
+    let (a, ab) = any_id_wide::<16>();
+    let (b, bb) = any_id_wide::<16>();
+    let (x, y) = (u128::from_le_bytes(ab), u128::from_le_bytes(bb));
+    let expected = if x < y {
+        Ordering::Less
+    } else if x == y {
+        Ordering::Equal
+    } else {
+        Ordering::Greater
+    };
+    let c = a.cmp(&b);
+    assert!(c == expected);
+    assert!(a.partial_cmp(&b) == Some(c));
+    assert!((c == Ordering::Equal) == (a == b));
+    assert!(b.cmp(&a) == rev(c));
+    assert!((a < b) == (x < y) && (a <= b) == (x <= y) && (a > b) == (x > y) && (a >= b) == (x >= y));
+}
+
+// Negative control: claims the order is that of the LOW 64-bit word first (the seeded defect) -> must FAIL.
+// @harness name=ident_ord_wide16_negctl props=C01,C02 kind=complete bound="-" tier=quick backs="vacuity guard for ident_ord_wide16: a word-wise least-significant-first comparison is distinguishable" expect=fail
+#[kani::proof]
+#[kani::unwind(18)]
+fn ident_ord_wide16_negctl() {
+    let (a, ab) = any_id_wide::<16>();
+    let (b, bb) = any_id_wide::<16>();
+    let (x, y) = (u128::from_le_bytes(ab), u128::from_le_bytes(bb));
+    let (xl, xh, yl, yh) = (x as u64, (x >> 64) as u64, y as u64, (y >> 64) as u64);
+    let wrong = if xl != yl { num_cmp64(xl, yl) } else { num_cmp64(xh, yh) };
+    assert!(a.cmp(&b) == wrong, "negctl");
+}
+fn num_cmp64(a: u64, b: u64) -> Ordering {
+    if a < b {
+        Ordering::Less
+    } else if a == b {
+        Ordering::Equal
+    } else {
+        Ordering::Greater
+    }
+}
+
+// @harness name=ident_ord_wide32 props=C01,C02 kind=complete bound="-" tier=quick backs="as ident_ord_wide16 for ALL pairs of non-zero 32-byte scalars (the width of five real suites): cmp == numeric order of the 256-bit little-endian value (high u128 first, then low u128)" expect=pass
+#[kani::proof]
+#[kani::unwind(34)]
+fn ident_ord_wide32() {
+    let (a, ab) = any_id_wide::<32>();
+    let (b, bb) = any_id_wide::<32>();
+    let mut lo = [0u8; 16];
+    let mut hi = [0u8; 16];
+    lo.copy_from_slice(&ab[..16]);
+    hi.copy_from_slice(&ab[16..]);
+    let (xl, xh) = (u128::from_le_bytes(lo), u128::from_le_bytes(hi));
+    lo.copy_from_slice(&bb[..16]);
+    hi.copy_from_slice(&bb[16..]);
+    let (yl, yh) = (u128::from_le_bytes(lo), u128::from_le_bytes(hi));
+    let expected = if xh != yh {
+        if xh < yh {
+            Ordering::Less
+        } else {
+            Ordering::Greater
+        }
+    } else if xl < yl {
+        Ordering::Less
+    } else if xl == yl {
+        Ordering::Equal
+    } else {
+        Ordering::Greater
+    };
+    let c = a.cmp(&b);
+    assert!(c == expected);
+    assert!(a.partial_cmp(&b) == Some(c));
+    assert!((c == Ordering::Equal) == (a == b));
+}
